@@ -257,7 +257,9 @@ Inductive outp :=
 | ONoop
 | OMsg (alerted : bool)
 | OProgress                     (* sub-step done, save still running *)
-| OEnded (skipped denied : bool) (r : option fclass).   (* save_sensors returned / raised r *)
+| OEnded (skipped denied : bool) (failed : option fclass) (raised : bool).
+    (* save_sensors is over: it skipped a clean state / was denied / an exception of class
+       `failed` occurred inside it and (raised) left it *)
 
 Definition set_opt (o : option bool) (d : bool) : bool := match o with Some b => b | None => d end.
 
@@ -285,7 +287,7 @@ Definition save_raises (c : cfg) (fl : flavour) (v : sv) (f : fclass) (s : st) :
   let d2 := if protected then set_opt (sv_finally_sets sc) d1 else d1 in
   let r := if caught && negb (sv_handler_reraises sc) then None else Some f in
   (return_to_caller c fl (v_owner v) r (mkSt (s_tree s) d2 (s_fs s) (s_armed s) (s_stopped s) None),
-   OEnded false false r).
+   OEnded false false (Some f) (negb (caught && negb (sv_handler_reraises sc)))).
 
 (* run the statements that are not sub-steps of their own: `need_save = False`,
    the two `if exists:` statements when the file did not exist, the normal return *)
@@ -294,7 +296,7 @@ Fixpoint settle (c : cfg) (fl : flavour) (v : sv) (todo : list sop) (idx : nat) 
   | [] =>
       let d := if has_try (c_save c) then set_opt (sv_finally_sets (c_save c)) (s_dirty s) else s_dirty s in
       (return_to_caller c fl (v_owner v) None (mkSt (s_tree s) d (s_fs s) (s_armed s) (s_stopped s) None),
-       OEnded false false None)
+       OEnded false false None false)
   | SClear :: r => settle c fl v r (S idx) (mkSt (s_tree s) false (s_fs s) (s_armed s) (s_stopped s) (s_saving s))
   | SRenBak :: r =>
       if v_exists v then
@@ -315,8 +317,8 @@ Definition is_some {A} (o : option A) : bool := match o with Some _ => true | No
 
 (* save_sensors up to its first sub-step *)
 Definition begin_save (c : cfg) (fl : flavour) (o : owner) (denied : bool) (s : st) : st * outp :=
-  if negb (s_dirty s) then (return_to_caller c fl o None s, OEnded true false None)       (* if not self.need_save: return *)
-  else if denied then (return_to_caller c fl o None s, OEnded false true None)             (* Permission denied: log, return *)
+  if negb (s_dirty s) then (return_to_caller c fl o None s, OEnded true false None false)       (* if not self.need_save: return *)
+  else if denied then (return_to_caller c fl o None s, OEnded false true None false)             (* Permission denied: log, return *)
   else
     let v := mkSv o (is_some (f_main (s_fs s))) (sv_order (c_save c)) 0 PhOpen [] (load (s_fs s)) in
     settle c fl v (sv_order (c_save c)) 0 s.
@@ -461,3 +463,47 @@ Definition do_save (c : cfg) (fl : flavour) (pol : policy) (stop : bool) (p : pl
   let e0 := if stop then EStop (is_denied p) else EFire (is_denied p) in
   let '(s1, o1) := step c fl pol s e0 in
   drive c fl pol p (objs (s_tree s) + 12) 0 s1 [e0] o1.
+
+(* ------------------------------------------------------------------ specification vocabulary *)
+
+(* a dict iterator over an unchanged dict visits every entry and stops *)
+Definition policy_ok (pol : policy) : Prop :=
+  forall n pos, pol n n pos = if Nat.ltb (S pos) n then ANext else AEnd.
+
+Definition sop_eqb (a b : sop) : bool :=
+  match a, b with
+  | SClear, SClear | SSer, SSer | SRenBak, SRenBak | SRenMain, SRenMain | SRemBak, SRemBak => true
+  | _, _ => false
+  end.
+Fixpoint sops_eqb (a b : list sop) : bool :=
+  match a, b with
+  | [], [] => true
+  | x :: a', y :: b' => sop_eqb x y && sops_eqb a' b'
+  | _, _ => false
+  end.
+
+Definition full_order : list sop := [SClear; SSer; SRenBak; SRenMain; SRemBak].
+
+(* the mechanisms the property rests on, as a decidable condition on the generated shape:
+   flag cleared before serialising; serialisation and renames inside a try whose handler
+   catches OSError and RuntimeError and stores True; no finally that touches the flag *)
+Definition good_save (c : save_cfg) : bool :=
+  sops_eqb (sv_order c) full_order
+  && Nat.leb (sv_protect_from c) 1
+  && covers (sv_handler c) FOSError && covers (sv_handler c) FRuntimeError
+  && match sv_handler_sets c with Some true => true | _ => false end
+  && match sv_finally_sets c with None => true | Some _ => false end.
+
+(* save call inside a try that catches both classes and falls through to the re-arm;
+   stop() cancels, survives the cancellation and saves *)
+Definition good_sched (s : sched_cfg) : bool :=
+  covers (sc_handler s) FOSError && covers (sc_handler s) FRuntimeError
+  && sc_resumes s && sc_rearm s && sc_stop_cancels s && sc_cancel_ok s && sc_stop_saves s.
+
+Definition good (c : cfg) : bool := good_save (c_save c) && good_sched (c_sync c) && good_sched (c_async c).
+
+(* number of sub-steps of an undisturbed fault-free save *)
+Definition save_len (t : tree) (ex : bool) : nat := objs t + 3 + (if ex then 2 else 0).
+
+Definition reachable (c : cfg) (fl : flavour) (pol : policy) (s : st) : Prop :=
+  exists t0 f0 evs, s = run c fl pol (init t0 f0) evs.
